@@ -11,6 +11,7 @@ Totality theorems proved for other properties are cited in the evidence: C19 (`e
 structural recursion).
 -/
 import Comrak.Lemmas.Total
+import Comrak.Props.C04
 namespace Comrak.C01
 open Comrak Bytes Comrak.Tot
 
@@ -112,42 +113,56 @@ theorem shortestUnused_fixed_on_witnesses :
 
 /-! ## `Spx::consume` -/
 
-/-- Under the precondition its callers are supposed to establish - every queued segment is spelled
-    verbatim in the source (one column per byte), the queue is not empty and holds at least `rem`
-    bytes - neither the `assert!` nor the `unreachable!()` fires, the remaining queue satisfies the
-    same precondition, and exactly `rem` bytes are gone. -/
-theorem spx_consume_total (q : List Seg) (rem : Nat) (hv : ∀ s ∈ q, s.verbatim) (hne : q ≠ [])
-    (hsum : rem ≤ spxTotal q) :
-    ∃ e q', spxConsume q rem = some (e, q') ∧ (∀ s ∈ q', s.verbatim) ∧ spxTotal q' + rem = spxTotal q := by
+/-- `Spx::consume` never panics as long as the queue holds the requested bytes, for EVERY queue -
+    verbatim or not (the pinned tree asserted `ec - sc + 1 = x` in the `Less` arm and panicked on an
+    unresolved footnote reference whose label held an e-mail address and an escape, entity or line
+    break; repaired in /repo) - and exactly `rem` bytes are gone afterwards. -/
+theorem spx_consume_total (q : List Seg) (rem : Nat) (hne : q ≠ []) (hsum : rem ≤ spxTotal q) :
+    ∃ e q', spxConsume q rem = some (e, q') ∧ spxTotal q' + rem = spxTotal q := by
   induction q generalizing rem with
   | nil => exact absurd rfl hne
   | cons s q ih =>
-    have hs : s.verbatim := hv s (by simp)
-    have hq : ∀ t ∈ q, t.verbatim := fun t ht => hv t (by simp [ht])
     rw [spxTotal_cons] at hsum
     simp only [spxConsume]
     split
     · rename_i hlt
       have hne' : q ≠ [] := by
         intro h; subst h; simp [spxTotal] at hsum; omega
-      obtain ⟨e, q', h1, h2, h3⟩ := ih (rem - s.x) hq hne' (by omega)
-      exact ⟨e, q', h1, h2, by rw [spxTotal_cons]; omega⟩
+      obtain ⟨e, q', h1, h3⟩ := ih (rem - s.x) hne' (by omega)
+      exact ⟨e, q', h1, by rw [spxTotal_cons]; omega⟩
     · split
       · rename_i h1 h2
-        exact ⟨s.ec, q, rfl, hq, by rw [spxTotal_cons]; omega⟩
+        exact ⟨s.ec, q, rfl, by rw [spxTotal_cons]; omega⟩
       · rename_i h1 h2
-        have hver : s.ec - s.sc + 1 = s.x := by unfold Seg.verbatim at hs; omega
-        simp only [hver, true_or, if_true]
-        refine ⟨_, _, rfl, ?_, ?_⟩
-        · intro t ht
-          rcases List.mem_cons.mp ht with rfl | ht
-          · unfold Seg.verbatim at hs ⊢; simp only; omega
-          · exact hq t ht
-        · simp only [spxTotal_cons]; omega
+        exact ⟨_, _, rfl, by simp only [spxTotal_cons]; omega⟩
+
+/-- On verbatim segments (one column per byte) the split is exact: the returned column is
+    `sc + rem - 1`, i.e. the `min` never bites, and the remaining queue is verbatim again. -/
+theorem spx_consume_verbatim (q : List Seg) (rem : Nat) (hv : ∀ s ∈ q, s.verbatim) (e : Nat) (q' : List Seg)
+    (h : spxConsume q rem = some (e, q')) : ∀ s ∈ q', s.verbatim := by
+  induction q generalizing rem with
+  | nil => simp [spxConsume] at h
+  | cons s q ih =>
+    have hs : s.verbatim := hv s (by simp)
+    have hq : ∀ t ∈ q, t.verbatim := fun t ht => hv t (by simp [ht])
+    simp only [spxConsume] at h
+    split at h
+    · exact ih _ hq h
+    · split at h
+      · simp only [Option.some.injEq, Prod.mk.injEq] at h
+        obtain ⟨_, rfl⟩ := h
+        exact hq
+      · rename_i h1 h2
+        simp only [Option.some.injEq, Prod.mk.injEq] at h
+        obtain ⟨_, rfl⟩ := h
+        intro t ht
+        rcases List.mem_cons.mp ht with rfl | ht
+        · unfold Seg.verbatim at hs ⊢; simp only; omega
+        · exact hq t ht
 
 /-- Chains of calls (what `process_email_autolinks` does: `consume(i)`, `consume(skip)`, recursion on the
     rest) stay defined as long as the requested bytes are available. -/
-theorem spx_consume_all_total (q : List Seg) (rems : List Nat) (hv : ∀ s ∈ q, s.verbatim)
+theorem spx_consume_all_total (q : List Seg) (rems : List Nat)
     (hsum : rems.sum ≤ spxTotal q) (hpos : ∀ r ∈ rems, 0 < r) :
     (spxConsumeAll q rems).isSome = true := by
   induction rems generalizing q with
@@ -156,20 +171,17 @@ theorem spx_consume_all_total (q : List Seg) (rems : List Nat) (hv : ∀ s ∈ q
     have hr : 0 < r := hpos r (by simp)
     simp only [List.sum_cons] at hsum
     have hne : q ≠ [] := by intro h; subst h; simp [spxTotal] at hsum; omega
-    obtain ⟨e, q', h1, h2, h3⟩ := spx_consume_total q r hv hne (by omega)
-    have := ih q' h2 (by omega) (fun x hx => hpos x (by simp [hx]))
+    obtain ⟨e, q', h1, h3⟩ := spx_consume_total q r hne (by omega)
+    have := ih q' (by omega) (fun x hx => hpos x (by simp [hx]))
     simp only [spxConsumeAll, h1]
     cases hc : spxConsumeAll q' rs with
     | none => simp [hc] at this
     | some p => simp
 
-/-- The callers do not always establish the precondition. An unresolved footnote reference is turned
-    back into ONE text node whose byte count differs from its column span when the label holds a
-    backslash escape, an entity or smart punctuation; with `autolink` on, an e-mail address inside
-    that label makes `process_email_autolinks` ask for a split inside the segment:
-    `[^\]b@c.d]` is the text `[^]b@c.d]` (10 bytes) at columns 1..11 and `consume(3)` hits the `assert!`.
-    Replayed on the real parser by the harness (known finding C01-spx-footnote-label-email). -/
-theorem spx_consume_counterexample : spxConsume [⟨1, 1, 1, 11, 10⟩] 3 = none := by decide
+/-- The former failing input: `[^\]b@c.d]` is the text `[^]b@c.d]` (10 bytes) at columns 1..11;
+    `consume(3)` hit the `assert!` on the pinned tree and now answers column 3. -/
+theorem spx_consume_former_counterexample :
+    spxConsume [⟨1, 1, 1, 11, 10⟩] 3 = some (3, [⟨1, 4, 1, 11, 7⟩]) := by decide
 
 /-- `unreachable!()`: asking an empty queue for anything. -/
 theorem spx_consume_empty_counterexample : spxConsume [] 0 = none := by decide
@@ -313,6 +325,33 @@ theorem cm_prefix_restored_partial (n : Nat) (h : numDigits (n + 1) = numDigits 
 theorem cm_prefix_underflow_counterexample : cmQuoteItemPrefix 9 = none ∧ cmQuoteItemPrefix 99 = none ∧ cmQuoteItemPrefix 8 = some 0 := by
   decide
 
+/-! ## The formatters' `unwrap()` / `panic!` / index sites on well-shaped trees (from C04)
+
+`C04.noPanicT`, `xmlNoPanicT`, `cmNoPanicT` enumerate the sites of `html.rs`, `xml.rs` and `cm.rs`
+whose safety depends on where a node sits (parent/grandparent kinds, cell index against the
+table's alignments, a non-empty code literal).  On every tree that satisfies the C04 shape
+predicate and is rooted at a document none of them can fire; that parsed trees satisfy `Shape`
+is C04's search stage. -/
+
+/-- `html.rs`: `render_paragraph`'s `parent().unwrap()`, `render_table`'s `last_child().unwrap()`,
+    `render_table_cell`'s two `unwrap()`s, `panic!` and `alignments[i]`. -/
+theorem html_no_panic_of_shape (sp : Sp) (cs : Forest) (h : Shape (.node .document sp cs) = true) :
+    C04.noPanicT {} (.node .document sp cs) = true :=
+  C04.shape_imp_noPanic_doc sp cs h
+
+/-- `xml.rs`: the table-cell arm's `ancestors.next().unwrap()` (twice) and `alignments[ix]`. -/
+theorem xml_no_panic_of_shape (sp : Sp) (cs : Forest) (h : Shape (.node .document sp cs) = true) :
+    xmlNoPanicT {} (.node .document sp cs) = true :=
+  C04.xml_no_panic _ h rfl
+
+/-- `cm.rs`: `format_item`'s `parent().unwrap()`/`unreachable!()`, `format_code`'s `literal[0]`
+    (needs the non-empty literal the inline parser guarantees, `normalizeCode_nonempty` above),
+    `format_table_cell`'s `unwrap()`s and `panic!()`s. -/
+theorem cm_no_panic_of_shape (sp : Sp) (cs : Forest) (h : Shape (.node .document sp cs) = true)
+    (hc : Tree.allV codeLitNonEmpty (.node .document sp cs) = true) :
+    cmNoPanicT {} (.node .document sp cs) = true :=
+  C04.cm_no_panic _ h rfl hc
+
 /-! Non-vacuity -/
 example : shortestUnused [0x61, 0x60, 0x62, 0x60, 0x60, 0x60] 0x60 = 2 := by decide
 example : runs 0x60 [0x61, 0x60, 0x62, 0x60, 0x60, 0x60] = [1, 3] := by decide
@@ -324,5 +363,7 @@ example : normalizeCode [0x20, 0x61, 0x0D, 0x0A, 0x62, 0x20] = [0x61, 0x20, 0x62
 example : chopHashtags [0x61, 0x20, 0x23, 0x23, 0x20] = some [0x61] := by decide
 example : removeTrailingBlankLines [0x61, 0x0A, 0x20, 0x0A, 0x0A] = some [0x61] := by decide
 example : numDigits 123 + 1 = numDigits 124 + 1 ∧ cmQuoteItemPrefix 123 = some 0 := by decide
+
+example : C04.noPanicT {} Comrak.C10.sampleTree = true := C04.shape_imp_noPanic _ (by decide) (by decide)
 
 end Comrak.C01
